@@ -18,6 +18,7 @@ func init() {
 	zzsv.Register("ZZ_C07_LongHistory", ZZ_C07_LongHistory)
 	zzsv.Register("ZZ_C07_ObjectHistory", ZZ_C07_ObjectHistory)
 	zzsv.Register("ZZ_C07_Reconfigured", ZZ_C07_Reconfigured)
+	zzsv.Register("ZZ_C07_ConversionFaults", ZZ_C07_ConversionFaults)
 }
 
 type zzC07Obj struct {
@@ -365,4 +366,44 @@ func ZZ_C07_Reconfigured(sv *zzsv.T) {
 	o2, e2 := fresh.Execute(obj)
 	zzDescribe(sv, "used", o1, e1)
 	zzCompareTwo(sv, "C07.reconf", used, fresh, o1, o2, e1, e2, nil, nil, []string{"n", "x", "v"})
+}
+
+type zzC07Host struct {
+	F int64
+	M map[string]interface{}
+	L []interface{}
+}
+
+// ZZ_C07_ConversionFaults: a run may also fail while the host object is
+// being converted (a nested map of a kind the conversion cannot take). The
+// host then repairs the object in place and runs again: the used evaluator
+// sees the repaired containers exactly as a fresh evaluator does.
+func ZZ_C07_ConversionFaults(sv *zzsv.T) {
+	scripts := []string{"return string(M) + string(F);", "x = M; return len(M) + F;", "n = 0; foreach k, v in M { n = n + 1; } return n + len(L);", "return string(L);"}
+	src := scripts[sv.Choice("script", len(scripts))]
+	sv.Note("script", src)
+	f := sv.Int64("F")
+	sv.Assume(f >= 0 && f <= 9)
+	inner := map[string]interface{}{"deep": map[string]int{"x": 1}, "ok": int64(2)}
+	o := &zzC07Host{F: f, M: map[string]interface{}{"in": inner, "n": int64(1)}, L: []interface{}{inner, int64(3)}}
+	used := New(src)
+	sv.Assume(used.Prepare() == nil)
+	runs := 1 + sv.Choice("failing_runs", 2)
+	for i := 0; i < runs; i++ {
+		var err error
+		ok := zzNoPanic(func() { _, err = used.Execute(o) })
+		sv.Assert("C07.convfault.nopanic", ok)
+		sv.Observe("history.err", err != nil)
+	}
+	// repaired in place: same containers, same sizes
+	inner["deep"] = "fixed"
+	fresh := New(src)
+	sv.Assume(fresh.Prepare() == nil)
+	o1, e1 := used.Execute(o)
+	o2, e2 := fresh.Execute(o)
+	zzDescribe(sv, "used", o1, e1)
+	sv.Assert("C07.convfault.same_failure", (e1 != nil) == (e2 != nil))
+	if e1 == nil && e2 == nil {
+		sv.Assert("C07.convfault.same_result", o1.Type() == o2.Type() && o1.Inspect() == o2.Inspect())
+	}
 }
